@@ -5,6 +5,7 @@ import random
 
 import layout
 import pylib
+import gen_ma
 import sexp_reader
 from drive_core import domain_digest
 from pddl_plus_parser.lisp_parsers import TrajectoryParser
@@ -64,7 +65,10 @@ def run_case(case, opts):
             if agent is None:
                 continue
             for _ in range(4):
-                args = [agent] + [rng.choice([o for o, t in objs if t == ty]) for _, ty in params[1:]]
+                pools = [[o for o, t in objs if gen_ma.conforms(t, ty)] for _, ty in params[1:]]
+                if any(not pool for pool in pools):
+                    continue
+                args = [agent] + [rng.choice(pool) for pool in pools]
                 cands.append((name, args))
         rng.shuffle(cands)
         if want_applicable:
